@@ -61,7 +61,9 @@ THEOREMS = [
     "Cotengra.C05.fromPath_complete",
     "Cotengra.C05.fromSSA_complete",
     "Cotengra.C05.processor_path_valid",
-    "Cotengra.C05.divide_terminates",
+    "Cotengra.C05.divide_terminates_partial",
+    "Cotengra.C05.divide_single_input_counterexample",
+    "Cotengra.C05.divide_terminates_repaired",
     "Cotengra.C05.agglom_complete_partial",
     "Cotengra.C05.agglom_counterexample",
     "Cotengra.C05.agglom_fixed_complete",
@@ -796,6 +798,12 @@ def check_builders(ctx, drv, rng):
         params = {"groupsize": groupsize, "partitioner": style}
     tree = run_finder(ctx, drv, net, "adversarial", "PartitionTreeBuilder." + which, "tree", style, thunk,
                       params, case_extra={"builder": which})
+    if which == "divide" and tree is not None:
+        # divide_terminates_partial bounds the iterations, hence the partitioner calls, by N - 1
+        ctx.count("divide_partition_calls", len(log))
+        if len(log) > max(n - 1, 0):
+            ctx.corr_broken("build_divide called the partitioner more often than the model's bound N-1",
+                            {"n": n, "calls": len(log), "params": params})
     if which == "agglom" and style in ("identity", "one", "two"):
         # the loop itself against the model (code as it stands, and with the proposed repair)
         cur = drv.call("c05.agglom", n=n, groupsize=params["groupsize"], memberships=log[:50])
